@@ -55,7 +55,7 @@ def gen_rc(rng):
     ops = []
     for _ in range(rng.randint(2, 20)):
         k = rng.random(); i = rng.randint(0, 3); j = rng.randint(0, 3)
-        ops.append("new:%d" % i if k < 0.3 else "as:%d:%d" % (i, j) if k < 0.8 else "rs:%d" % i)
+        ops.append("new:%d" % i if k < 0.3 else "as:%d:%d" % (i, j) if k < 0.7 else "sw:%d:%d" % (i, j) if k < 0.85 else "rs:%d" % i)     # sw: swap (C20-q)
     return {"comp": "rc", "ops": ops}
 
 def gen_vmap(rng):
